@@ -168,6 +168,20 @@ def run(rep, pdb, tier):
         asg = [e for e in effs_ if e.kind == "assign" and e.target[0] == "field" and e.target[2] == "coeffs"]
         pushes = [e for e in effs_ if e.kind == "push" and len(e.loops) == 1]
         ok = len(asg) == 1 and len(pushes) == 1
+        if not asg and len(pushes) == 1:
+            # the mapped vector handed to the constructor: `Polynomial::new(scaled)` as the value of the function
+            pu = pushes[0]
+            r = for_range(ctx, pu.loops[0])
+            x = ("idx", CO0, r[0]) if r else None
+            tb = ctx.binds.get(pu.target[1]) if pu.target[0] == "var" else None
+            ti = ctx.term(tb.init) if tb is not None and tb.init is not None else None
+            fresh = ti is not None and ti[0] == "call" and str(ti[1]).endswith("::new") and len(ti) == 2
+            val_ok = pu.value == ("neg", x) if want == "neg" else pu.value in (("op", "*", x, P(1)), ("op", "*", P(1), x))
+            tail = fn["body"].get("expr")
+            ok = r is not None and r[1:5] == (num(0), LEN(CO0), False, False) and val_ok and fresh and tail is not None and \
+                ctx.term(tail) == ("call", "%s::new" % PT, pu.target) and not any(n_.get("k") == "Ret" for n_ in walk(fn["body"]))
+            rep.add("polarity/%s" % key, rule, ok, fn["body"], "built with Polynomial::new", where=loc(fn["body"]))
+            continue
         if ok:
             # (a `.iter().map(..).collect()` is canonicalised to this loop of pushes into a fresh Vec)
             pu = pushes[0]
